@@ -20,7 +20,7 @@ import re
 
 from mirlib import BranchFacts, strip, deep_strip, show, walk, const_value
 from rulelib import (
-    bool_facts, dominating_edges, facts_at, fmt_path, must_pass, outcome_facts, return_assignments,
+    bool_facts, controlling_switches, dominating_edges, facts_at, fmt_path, must_pass, outcome_facts, return_assignments,
     succeeded_calls,
 )
 
@@ -307,6 +307,27 @@ def rule_lock(ctx, F):
            "the writer's version is not computed from versions.current() *after* acquiring the update lock "
            "(found %s): a writer queued behind another one would reuse the version the first one publishes"
            % show(varg)[:120], b.where(nbb))
+    # the guard lives exactly as long as the writer: nothing takes, replaces or drops the field that holds it
+    import json
+    adt = F.adts.get("zonetree::in_memory::write::WriteZone")
+    gfields = [f["name"] for f in adt["variants"][0]["fields"] if "MutexGuard" in f["ty"]] if adt else []
+    if ctx.anchor(R, "the WriteZone field holding the update-lock guard", len(gfields) == 1):
+        g = gfields[0]
+        users = []
+        for p_, b_ in F.bodies.items():
+            if not p_.lstrip("<").startswith("zonetree::"):
+                continue
+            for bi in b_.reachable_blocks():
+                blk = b_.blocks[bi]
+                txt = json.dumps([st[:3] for st in blk["s"] if st[0] == "="]) + json.dumps(
+                    {k: v for k, v in blk["t"].items() if k in ("args", "dest", "p", "d")})
+                if re.search(r'\["\.", \d+, "%s"\]' % re.escape(g), txt):
+                    users.append((b_, bi))
+        ctx.ob(R, "zonetree::in_memory::write::WriteZone", "the guard field is never touched after construction", not users,
+               "%s accesses WriteZone.%s: the update lock is released (or replaced) before the writer is dropped, so a second "
+               "writer can start on the same unpublished version while this one is still in use (commit followed by "
+               "re-open, as ZoneUpdater does per batch)" % (users[0][0].path.split("::")[-1] if users else "-", g),
+               users[0][0].where(users[0][1]) if users else "")
     # Clone drops the lock (clones live inside the original's lifetime) - audited, not decided
     ctx.note("C09.lock: WriteZone::clone sets _lock: None (audited: clones are owned by WriteNodes created from &self)")
 
@@ -367,6 +388,21 @@ def rule_rbk(ctx, F):
                     prov = [_provenance(F, b, b.term_of_operand(t["args"][i])) for i in vi]
                     if prov and all(pv == "param" for pv in prov):
                         hit = True
+        filters = sorted({(t["fn"] or "").split("::")[-1] for b in bodies for _, t in b.calls()
+                          if re.search(r"Iterator::(filter|filter_map|skip|take|skip_while|take_while|step_by|find|nth)$", t["fn"] or "")})
+        cond = []
+        for b in bodies:
+            for bb, t in b.calls():
+                if t["fn"] and re.search(inner, t["fn"]):
+                    cs = [sw for sw in controlling_switches(b, bb)
+                          if not any(s[0] == "call" and re.search(r"Iterator>?::next$", s[1] or "")
+                                     for s in walk(deep_strip(b.term_of_operand(b.blocks[sw]["t"]["d"]))))]
+                    if cs:
+                        cond.append(b.where(cs[0]))
+        ctx.ob(R, fn, "no element is left out", not filters and not cond,
+               "%s applies %s only to some of the contained elements (%s): what an abandoned writer changed in the others "
+               "stays and shows up under the next version number"
+               % (fn.split("::")[-1], inner.rstrip("$"), ("iterator adaptor " + "/".join(filters)) if filters else "under a condition at " + ", ".join(cond)))
         iterates = any(re.search(r"::(for_each|values|values_mut|iter|iter_mut)$", t["fn"] or "") for b in bodies for _, t in b.calls())
         need_iter = "NodeRrset::" not in fn
         ctx.ob(R, fn, "forwards the version to every element", hit and (iterates or not need_iter),
